@@ -29,14 +29,17 @@ inline bool lrtr_ipv6_addr_equal(const struct lrtr_ipv6_addr *a, const struct lr
 struct lrtr_ipv6_addr lrtr_ipv6_get_bits(const struct lrtr_ipv6_addr *val, const uint8_t first_bit,
 					 const uint8_t quantity)
 {
-	assert(first_bit <= 127);
-	assert(quantity <= 128);
-	assert(first_bit + quantity <= 128);
-
 	// if no bytes get extracted the result has to be 0
 	struct lrtr_ipv6_addr result;
 
 	memset(&result, 0, sizeof(result));
+
+	// bits beyond the last one are 0 (the trie asks for bit 128 at a leaf of depth 128)
+	if (first_bit > 127)
+		return result;
+
+	assert(quantity <= 128);
+	assert(first_bit + quantity <= 128);
 
 	uint8_t bits_left = quantity;
 
